@@ -112,6 +112,7 @@ class ProgGen:
         self.frozen_len: Set[str] = set()  # names whose len() was taken (must never be mutated)
         self.list_len: Dict[str, int] = {}  # minimal guaranteed length
         self.list_elem: Dict[str, str] = {}
+        self.no_comp_var: Set[str] = set()
         self.budget = self.opts.max_stmts
         self.features_used: Set[str] = set()
         self.in_helper = False
@@ -475,7 +476,10 @@ class ProgGen:
         if not self.feature("eval_order", 0.3):
             # a helper with side effects inside a larger expression meets C++'s unspecified operand order
             cands = [h for h in cands if h.pure]
-        if not cands or self.in_helper:
+        if self.in_helper:
+            # a helper may call helpers defined before it, as long as they have no side effects
+            cands = [h for h in cands if h.pure]
+        if not cands:
             return None
         h = self.rng.choice(cands)
         args = []
@@ -603,10 +607,34 @@ class ProgGen:
                 self.features_used.add("list_local")
             name = self.fresh("xs")
             elem = r.choice(["int", "int", "float", "str"] if self.opts.use_floats and self.opts.use_strings else ["int"])
-            if self.chance(0.3) and elem == "int":
-                n = r.randint(1, 5)
-                body = r.choice(["i", "i * 2", "i + 1", "(i * i) % 7"])
-                self.emit(depth, f"{name} = [{body} for i in range({n})]")
+            comp_outer = None
+            if self.chance(0.45) and elem in ("int", "float"):
+                # every range() form, both step signs, spans that are not a multiple of the step, empty ranges
+                form = r.choice(["n", "n", "ab", "pos", "pos", "neg", "neg", "neg", "edge"])
+                if form == "n":
+                    args = (r.randint(0, 5),)
+                elif form == "ab":
+                    a = r.randint(-3, 4)
+                    args = (a, a + r.randint(0, 5))
+                elif form == "pos":
+                    a = r.randint(-3, 4)
+                    args = (a, a + r.randint(0, 9), r.choice([1, 2, 3, 4]))
+                elif form == "neg":
+                    a = r.randint(0, 9)
+                    args = (a, a - r.randint(0, 9), -r.choice([1, 2, 2, 3, 3, 5]))
+                else:
+                    args = r.choice([(3, 3), (5, 2), (0, 4, -1), (2, 0, -5), (0, 1, 7), (7, 0, -3), (9, 0, -2), (-1, -8, -4)])
+                n = len(range(*args))
+                v = "i"
+                outer = sorted(k for k, t in env.items() if t in ("int", "float", "bool", "str") and k not in self.no_comp_var)
+                if outer and self.chance(0.4):
+                    # the comprehension variable is local to the comprehension: an outer name of any type survives
+                    v = comp_outer = r.choice(outer)
+                if elem == "int":
+                    body = r.choice(["{v}", "{v} * 2", "{v} + 1", "({v} * {v}) % 7", "{v} - 3", "7"]).format(v=v)
+                else:
+                    body = r.choice(["{v} * 0.5", "{v} + 0.25", "{v} * 0.25 - 1.0"]).format(v=v)
+                self.emit(depth, f"{name} = [{body} for {v} in range({', '.join(str(a) for a in args)})]")
             elif elem == "int" and self.chance(0.4):
                 n = r.choice([1, 1, 2, 3, 4, 4])
                 pool = [r.choice([0, 0, r.randint(0, 40)]) for _ in range(r.choice([1, 2, n]))]
@@ -624,6 +652,11 @@ class ProgGen:
                 self.global_lists.add(name)
                 self.len_safe.add(name)
             self.probe(depth, env, [name])
+            if comp_outer is not None:
+                keep = self.fresh("k")
+                self.emit(depth, f"{keep} = {comp_outer}")
+                env[keep] = env[comp_outer]
+                self.probe(depth, env, [keep, comp_outer])
             return
         name = r.choice(lists)
         elem = self.list_elem[name]
@@ -1041,7 +1074,7 @@ class ProgGen:
                 self.emit(1, f"if {self.bool_expr(body_env, 1, no_call=True)}:")
                 early_type = "int" if (ret == "float" and self.opts.typing_bias and self.chance(0.6)) else ret
                 self.emit(2, f"return {self.expr(body_env, early_type, 1, no_call=True)}")
-            self.emit(1, f"return {self.expr(body_env, ret, 1, no_call=True)}")
+            self.emit(1, f"return {self.expr(body_env, ret, 1, no_call=not self.chance(0.5))}")
         self.in_helper = False
         self.budget = saved_budget
         self.len_safe = saved_len_safe
